@@ -1402,3 +1402,22 @@ Proof.
   { apply (nonidle_valid W s R). intros X. apply D. left. exact X. }
   destruct (nonresting_enabled W s t HW R Vt D) as (s1 & E). rewrite (Hstuck t Vt) in E. discriminate.
 Qed.
+
+(* ---- the clauses of Inv3 about parked waiters and about responsibility, as statements of their own ---- *)
+Theorem granted_waiter_is_woken W s u : 2 <= W <= 4094 -> reach W s -> grant s u <> GNone ->
+  woken s u = true \/ exists t, waker (pcs s t) u = true.
+Proof. intros HW R. destruct (inv3_reach W s HW R) as (_ & _ & H3). exact (k_wake s H3 u). Qed.
+
+Theorem parked_item_is_queued W s t i b : 2 <= W <= 4094 -> reach W s -> wait_item (pcs s t) = Some (i, b) -> grant s t = GNone ->
+  (exists x, In x (lst s) /\ i_id x = i /\ i_wt x = t) \/ exists u k e, pcs s u = DBW_xfer k e t i.
+Proof. intros HW R. destruct (inv3_reach W s HW R) as (_ & _ & H3). exact (k_item s H3 t i b). Qed.
+
+Theorem nonempty_list_has_responsible W s : 2 <= W <= 4094 -> reach W s -> lst s <> [] -> resp s.
+Proof. intros HW R. destruct (inv3_reach W s HW R) as (_ & _ & H3). exact (k_resp s H3). Qed.
+
+Theorem parked_waiters_and_responsibility W s : 2 <= W <= 4094 -> reach W s ->
+  (forall u, grant s u <> GNone -> woken s u = true \/ exists t, waker (pcs s t) u = true) /\
+  (forall t i b, wait_item (pcs s t) = Some (i, b) -> grant s t = GNone ->
+     (exists x, In x (lst s) /\ i_id x = i /\ i_wt x = t) \/ exists u k e, pcs s u = DBW_xfer k e t i) /\
+  (lst s <> [] -> resp s).
+Proof. intros HW R. destruct (inv3_reach W s HW R) as (_ & _ & H3). split; [exact (k_wake s H3)|]. split; [exact (k_item s H3)|exact (k_resp s H3)]. Qed.
